@@ -315,7 +315,7 @@ func opD3x(level, vec string, nilRecv bool, withFlags bool) string {
 			} else {
 				out += " q2=0"
 			}
-			out += " vq=" + viewsSame(level, d, d2) + " fq=" + fieldsSame(d, d2)
+			out += " vq=" + viewsSame(level, d, d2, probeSev3(recv)) + " fq=" + fieldsSame(d, d2)
 			if withFlags && r != nil && err == nil {
 				out += flags3(level, d, vec)
 			}
@@ -350,7 +350,7 @@ func opD3x(level, vec string, nilRecv bool, withFlags bool) string {
 			} else {
 				out += " q2=0"
 			}
-			out += " vq=" + viewsSame(level, d, d2) + " fq=" + fieldsSame(d, d2)
+			out += " vq=" + viewsSame(level, d, d2, probeSev3(recv)) + " fq=" + fieldsSame(d, d2)
 			if withFlags && r != nil && err == nil {
 				out += flags3(level, d, vec)
 			}
@@ -385,7 +385,7 @@ func opD3x(level, vec string, nilRecv bool, withFlags bool) string {
 			} else {
 				out += " q2=0"
 			}
-			out += " vq=" + viewsSame(level, d, d2) + " fq=" + fieldsSame(d, d2)
+			out += " vq=" + viewsSame(level, d, d2, probeSev3(recv)) + " fq=" + fieldsSame(d, d2)
 			if withFlags && r != nil && err == nil {
 				out += flags3(level, d, vec)
 			}
@@ -428,7 +428,7 @@ func opD2x(level, vec string, nilRecv bool, withFlags bool) string {
 			} else {
 				out += " q2=0"
 			}
-			out += " vq=" + viewsSame(level, d, d2) + " fq=" + fieldsSame(d, d2)
+			out += " vq=" + viewsSame(level, d, d2, probeSev2(recv)) + " fq=" + fieldsSame(d, d2)
 			if withFlags && r != nil && err == nil {
 				out += flags2(level, d, vec)
 			}
@@ -463,7 +463,7 @@ func opD2x(level, vec string, nilRecv bool, withFlags bool) string {
 			} else {
 				out += " q2=0"
 			}
-			out += " vq=" + viewsSame(level, d, d2) + " fq=" + fieldsSame(d, d2)
+			out += " vq=" + viewsSame(level, d, d2, probeSev2(recv)) + " fq=" + fieldsSame(d, d2)
 			if withFlags && r != nil && err == nil {
 				out += flags2(level, d, vec)
 			}
@@ -498,7 +498,7 @@ func opD2x(level, vec string, nilRecv bool, withFlags bool) string {
 			} else {
 				out += " q2=0"
 			}
-			out += " vq=" + viewsSame(level, d, d2) + " fq=" + fieldsSame(d, d2)
+			out += " vq=" + viewsSame(level, d, d2, probeSev2(recv)) + " fq=" + fieldsSame(d, d2)
 			if withFlags && r != nil && err == nil {
 				out += flags2(level, d, vec)
 			}
@@ -561,7 +561,50 @@ func fieldsSame(d, d2 string) string {
 	return "0"
 }
 
-func viewsSame(level, d, d2 string) string {
+// probeSev3 / probeSev2: the severity of each lower-level view read right after the higher level has been scored, with no
+// query of the view in between (a view whose severity is remembered from its last score must not be disturbed by the
+// higher level's equations, which run the lower levels' arithmetic on adjusted values)
+func probeSev3(recv interface{}) []string {
+	switch o := recv.(type) {
+	case *m3.Temporal:
+		if o == nil {
+			return nil
+		}
+		o.Score()
+		return []string{strconv.Itoa(int(o.BaseMetrics().Severity()))}
+	case *m3.Environmental:
+		if o == nil {
+			return nil
+		}
+		o.Score()
+		sb := strconv.Itoa(int(o.BaseMetrics().Severity()))
+		o.Score()
+		return []string{sb, strconv.Itoa(int(o.TemporalMetrics().Severity()))}
+	}
+	return nil
+}
+
+func probeSev2(recv interface{}) []string {
+	switch o := recv.(type) {
+	case *m2.Temporal:
+		if o == nil {
+			return nil
+		}
+		o.Score()
+		return []string{strconv.Itoa(int(o.BaseMetrics().Severity()))}
+	case *m2.Environmental:
+		if o == nil {
+			return nil
+		}
+		o.Score()
+		sb := strconv.Itoa(int(o.BaseMetrics().Severity()))
+		o.Score()
+		return []string{sb, strconv.Itoa(int(o.TemporalMetrics().Severity()))}
+	}
+	return nil
+}
+
+func viewsSame(level, d, d2 string, probe []string) string {
 	a, b := kvOf(d), kvOf(d2)
 	L := lvlIdx(level)
 	if L == 0 {
@@ -569,6 +612,10 @@ func viewsSame(level, d, d2 string) string {
 	}
 	r := ""
 	for l := 0; l < L; l++ {
+		if l < len(probe) && probe[l] != nth(a["sv"], l) {
+			r += "0"
+			continue
+		}
 		if nth(a["s"], l) == nth(b["s"], l) && nth(a["sv"], l) == nth(b["sv"], l) && nth(a["enc"], l) == nth(b["enc"], l) {
 			r += "1"
 		} else {
